@@ -212,8 +212,18 @@ class StmtMixin:
                 return      # immutable: nothing to modify
             self.obl("frame", node, st, FALSE, detail=f"callee {c.name} modifies constant {m}")
             return
-        # resolve one attribute level: 'self.x' -> attr x of v
         tgt = self.lift(v)
+        rec = self.callee_writes.get((id(c), root))
+        if rec is not None and any(p == c.name or p == c.name + ":" + root for p in self.contract.idempotent_writes):
+            # the caller declares these writes idempotent: obligation = every written field keeps its value
+            same = And(*[Eq(old, new) for _, old, new in rec])
+            origin = tgt.origin or ""
+            if any(origin == mm or origin.startswith(mm + ".") for mm in self.contract.modifies):
+                return
+            self.frame_log.append((f"{c.name}:{m}", "idempotent"))
+            self.obl("frame", node, st, Or(tgt.fresh, same),
+                     detail=f"callee {c.name} writes {[a for a, _, _ in rec]} of a pre-existing object: must be fresh or keep the values they hold")
+            return
         self.frame_write(st, tgt, f"{c.name}:{m}", node)
 
     def setitem(self, st, base_node, base, idx, v, node):
@@ -535,8 +545,41 @@ class StmtMixin:
                         names.add(x.func.value.id)
         return names
 
+    def yield_loop_as_comprehension(self, st, n, it):
+        body = n.body
+        test = None
+        if len(body) == 1 and isinstance(body[0], ast.If) and not body[0].orelse and len(body[0].body) == 1:
+            test = body[0].test
+            body = body[0].body
+        if not (len(body) == 1 and isinstance(body[0], ast.Expr) and isinstance(body[0].value, ast.Yield) and body[0].value.value is not None):
+            return None
+        name = fresh_name("ysrc")
+        comp = ast.ListComp(elt=body[0].value.value,
+                            generators=[ast.comprehension(target=n.target, iter=ast.Name(id=name, ctx=ast.Load()), ifs=[test] if test is not None else [], is_async=0)])
+        ast.copy_location(comp, n)
+        ast.fix_missing_locations(comp)
+        s0 = st.fork()
+        s0.env = {**s0.env, name: it}
+        out = []
+        for s, v in self.comprehension(s0, comp, "list"):
+            s.env = {k: w for k, w in s.env.items() if k != name}
+            if is_exc(v):
+                out.append((s, ("raise", v)))
+                continue
+            cur = s.env.get("__yield__", PyList([], "list"))
+            if isinstance(cur, PyList) and not cur.items:
+                new = v
+            else:
+                new = Val(f"(v_list (seq.++ (seqof {asV(self.lift(cur))}) (seqof {asV(self.lift(v))})))", kind="list", fresh=TRUE)
+            s.env = {**s.env, "__yield__": new}
+            out.append((s, None))
+        return out
+
     def for_invariant(self, st, n, it):
         """Loop over a symbolic sequence, cut at the loop head with the sidecar invariant."""
+        y = self.yield_loop_as_comprehension(st, n, it)
+        if y is not None:
+            return y
         self.loop_ordinal += 1
         ordinal = self.loop_ordinal
         inv_src = self.contract.invariants.get(ordinal, "True")
